@@ -269,7 +269,15 @@ CHECKS['C12'] = dict(
           'each) or the one-point placeholder when a whole side is reduced; cell_exact - for every view, axis set and '
           'in-bounds index, the cell at the kept coordinates is the list of view elements over ALL indices of the reduced '
           'axes, contains view[idx], and every member has those kept coordinates (the view is the coordinate map by '
-          'C01). The arithmetic of the reduction function is numpy\'s and is not modelled. The model returns the GROUP of every '
+          'C01); file_form / file_form_pos_reduced / file_form_spec_reduced - the WRITTEN dataset, for regular-grid sides '
+          'in any storage permutation: reduce(to_hdf5=True) succeeds, each side carries the labels / units of its '
+          'remaining dimensions, the regular grid over them (same relative rate order) and the ORIGINAL reference values '
+          '(an untouched side is the source\'s own matrices; a wholly reduced side the one-point placeholder), and element '
+          '(r, c) of the N\' x M\' data is the cell at (position indices of row r ++ spectroscopic indices of column c) read '
+          'from the NEW ancillaries (writeReducedAnc_grid: the kept columns are a sub-grid; kept_row: dropping size-1 '
+          'dimensions and renumbering keeps every row; C10 flatten_reads_coordinates / flatten_squeezed_*). Guard: the '
+          'remaining sides have at most as many dimensions as points (KF-D5a) and a wholly reduced side leaves >= 2 '
+          'dimensions on the other (otherwise the result is 1-D and link_as_main refuses). The arithmetic of the reduction function is numpy\'s and is not modelled. The model returns the GROUP of every '
           'output cell and the harness applies the reduction function, so float rounding never enters the comparison. '
           'Correspondence/oracle: in-memory result vs group-by of the raw data for mean/sum/max/min/std; with '
           'to_hdf5=True the written file is read back with raw h5py and every element compared by coordinates, or the '
